@@ -1354,7 +1354,20 @@ class DateTime(datetime.datetime, Date):
         return cls.instance(datetime.datetime.combine(date, time), tz=tzinfo)
 
     def astimezone(self, tz: datetime.tzinfo | None = None) -> Self:
-        dt = super().astimezone(tz)
+        # The conversion is done on a plain datetime: tzinfo implementations
+        # (dateutil, user-defined ones) do arithmetic on the value handed to
+        # fromutc(), which a DateTime with a foreign tzinfo performs as naive.
+        dt = datetime.datetime(
+            self.year,
+            self.month,
+            self.day,
+            self.hour,
+            self.minute,
+            self.second,
+            self.microsecond,
+            tzinfo=self.tzinfo,
+            fold=self.fold,
+        ).astimezone(tz)
 
         return self.__class__(
             dt.year,
